@@ -364,6 +364,41 @@ func VerifC19_RegistryAddResources() {
 	rt.Reach("registryadd-end")
 }
 
+// the dev version next to a pre-release that sorts below it (0.0.0-beta): in
+// dev mode the locally available dev version is selected all the same
+func VerifC19_DevVersionAmongLowerPreReleases() {
+	reg := c19Registry("/s/updates")
+	reg.DevMode = rt.Bool("devmode")
+	reg.UsePreReleases = rt.Bool("usepre")
+	res := reg.newResource("a/b.zip")
+	names := []string{"0", "0.0.0-beta", "1.0.0", "0.0.0-alpha.1"}
+	n := 2 + rt.Choice("more", 3)
+	order := rt.Choice("order", 2)
+	var dev *ResourceVersion
+	for i := 0; i < n; i++ {
+		k := i
+		if order == 1 {
+			k = n - 1 - i
+		}
+		if err := res.AddVersion(names[k], false, false, false); err != nil {
+			rt.Assert(false, "devbelow/setup")
+			return
+		}
+		rv := res.Versions[len(res.Versions)-1]
+		rv.Available = rt.Bool("available" + string(rune('0'+k)))
+		rv.PreRelease = k == 1 || k == 3
+		if k == 0 {
+			dev = rv
+		}
+	}
+	res.selectVersion()
+	rt.Assert(res.SelectedVersion != nil, "devbelow/something-selected")
+	if reg.DevMode && dev.Available {
+		rt.Assert(res.SelectedVersion == dev, "devbelow/available-dev-version-selected-in-dev-mode")
+	}
+	rt.Reach("devbelow-end")
+}
+
 // ---- versioned file names <-> (identifier, version) without loss ----
 
 func VerifC19_FileNames() {
